@@ -228,6 +228,12 @@ def step (st : St) (op impl : String) : St × StepOut :=
         match parseObs? impl with
         | some evs =>
           let (st, bad) := judge st (opEvents o ++ evs) t0 te
+          -- the hypothesis of the `_partial` theorems (`noStaleRun`, evaluated on the model state) against the
+          -- oracle's own classifier (evaluated on the implementation's history): every step the model calls a
+          -- stale kill must have been classified stale by the oracle, so that whatever the oracle judges under
+          -- `noStaleCompletion` lies inside the theorems' hypothesis
+          let bad := if o.isStaleAt wAt && !(st.o.any (·.stale)) && "c13-stale-classifier-misses-model-stale-kill".startsWith st.only
+            then bad ++ ["c13-stale-classifier-misses-model-stale-kill"] else bad
           (st, { model := m, oracle := bad, nontrivial := nt })
         | none => (st, { model := m, oracle := ["unparsable"], nontrivial := nt })
       | _, _ => (st, { model := "bad-op" })
